@@ -357,7 +357,7 @@ var errFault = errors.New("injected I/O fault")
 
 // budgetWriter accepts exactly `budget` bytes (mode "once": fails exactly one write, then recovers).  mode "short": the write that crosses the budget stores what fits
 // and returns (n < len(p), error); mode "next": it stores nothing of that write and returns (0, error); "shortwrite" / "eof": as "short" / "next" with
-// io.ErrShortWrite / io.EOF as the error value.
+// io.ErrShortWrite / io.EOF as the error value; "onceshort": one short write with an error, then the destination recovers.
 type budgetWriter struct {
 	budget int
 	mode   string
@@ -377,10 +377,10 @@ func (w *budgetWriter) err() error {
 }
 
 func (w *budgetWriter) Write(p []byte) (int, error) {
-	if w.failed && w.mode != "once" {
+	if w.failed && w.mode != "once" && w.mode != "onceshort" {
 		return 0, w.err()
 	}
-	if w.failed { // mode "once": a transient fault, the destination accepts everything again afterwards
+	if w.failed { // modes "once" / "onceshort": a transient fault, the destination accepts everything again afterwards
 		w.got += len(p)
 		return len(p), nil
 	}
@@ -389,7 +389,7 @@ func (w *budgetWriter) Write(p []byte) (int, error) {
 		return len(p), nil
 	}
 	w.failed = true
-	if w.mode == "short" || w.mode == "shortwrite" {
+	if w.mode == "short" || w.mode == "shortwrite" || w.mode == "onceshort" {
 		n := w.budget - w.got
 		w.got += n
 		return n, w.err()
@@ -460,7 +460,7 @@ func runWFault(rec *WFaultRec) {
 		}
 	}
 	for _, k := range ks {
-		for _, mode := range []string{"short", "next", "once", "shortwrite", "eof"} {
+		for _, mode := range []string{"short", "next", "once", "onceshort", "shortwrite", "eof"} {
 			w := &budgetWriter{budget: k, mode: mode}
 			f := WFault{K: k, Mode: mode}
 			var s2 *smf.SMF
